@@ -330,6 +330,8 @@ class Env(fsseam.FsEnv):
         n = len(data)
         if n <= 1:
             return 1
+        if kind == "abs":
+            return max(1, min(n - 1, r))
         if kind == "nl":
             return n - 1
         if kind == "hdr":
@@ -401,7 +403,11 @@ class Env(fsseam.FsEnv):
             if cur["written"] < len(cur["line"] or b""):
                 # the file is now cut short inside this record for every reader that runs
                 self.hist.partial_now.add(name)
-                self.sim.yield_point("after-cut")
+                hold = self.spec["knobs"].get("hold_cut_ns")
+                if hold:
+                    self.sim.sleep_ns(hold)  # the writer stalls with the record half on disk
+                else:
+                    self.sim.yield_point("after-cut")
             else:
                 self.hist.partial_now.discard(name)
 
@@ -660,6 +666,14 @@ class NodeRunner:
                 self.do_recv(op)
             elif kind == "run":
                 self.run_async(op["ns"])
+            elif kind == "recv_at_cut":
+                guard = 0
+                while not self.hist.partial_now and not self.writers_done() and guard < 100_000:
+                    sim.sleep_ns(50_000)
+                    guard += 1
+                if self.hist.partial_now:
+                    sim.probe("receive_started_while_file_cut")
+                self.do_recv({"op": "recv"})
             elif kind == "resume":
                 self.do_resume()
             elif kind == "restart":
@@ -1180,6 +1194,95 @@ def simpler_values(v):
                 yield d
     elif v is not None and v != 0:
         yield 0
+
+
+# ------------------------------------------------------------------------------- sweep: every byte offset of the last record
+SWEEP_PAYLOADS = [
+    "plain", "", "é€😀 日本", "~a1~ ~~ ~ 5~", "aaaaaaaaaaaa    bbbbbbb", "\\e \x1b \\x1b[0m", '"quoted" \\ {braces} [x]: @',
+    {"@": "at", "k": ["~", "1111", None, True, 1.5]}, [[], {}, "", 0], "line\nbreak\ttab\u2028sep", {"~~": {"id": "x", "to": "y", "data": "z", "hash": "h"}},
+]
+
+
+def sweep_spec(payload, k, mode, clock_start=0):
+    data = [1, payload]
+    if mode == "async":
+        wscript = [{"op": "sleep", "ns": POLL_NS // 2}, {"op": "send", "to": None, "data": [0, "first"], "serial": 0}, {"op": "send", "to": "r0", "data": data, "serial": 1}]
+        rscript = [{"op": "run", "ns": 6 * POLL_NS}]
+        hold = 2 * POLL_NS + 12345
+    else:
+        wscript = [{"op": "send", "to": None, "data": [0, "first"], "serial": 0}, {"op": "send", "to": "r0", "data": data, "serial": 1}]
+        rscript = [{"op": "recv_at_cut"}, {"op": "recv"}]
+        hold = 2_000_000
+    faults = [] if k is None else [{"kind": "short_write", "node": "w0", "send": 1, "cuts": [f"abs:{k}"]}]
+    return {"property": PROP, "config": "sweep", "nodes": [{"name": "w0", "role": "writer", "script": wscript},
+                                                             {"name": "r0", "role": "reader", "mode": mode, "script": rscript}],
+            "faults": faults, "clock": {"gran_ns": 1, "cost_ns": 37, "start_ns": clock_start},
+            "knobs": {"read_chunk": None, "read_random": False, "consumer_await": False, "hold_cut_ns": hold}}
+
+
+def _sweep_task(args):
+    spec, seed = args
+    rr = run(spec, Decider(seed=seed))
+    return {"violation": rr.violation, "probes": rr.probes, "faults": rr.faults, "digest": rr.digest, "spec": spec, "seed": seed}
+
+
+def _sweep_len(args):
+    spec, seed = args
+    rr = run(spec, Decider(seed=seed), keep_events=True)
+    for e in rr.events:
+        if e[0] == "write" and e[1] == "w0":
+            last = e[2]
+    return last
+
+
+def post_batch(tier: str, seed: int, total: dict):
+    """The quantifier of C19 names 'the queue file truncated at every byte offset of the last record': done literally,
+    for a list of payloads, with a reader that receives while the record is cut at offset k and again after it is completed."""
+    import multiprocessing
+    import time
+    from concurrent.futures import ProcessPoolExecutor
+
+    from . import runner
+
+    t0 = time.time()
+    rng = random.Random(derive(seed, "sweep"))
+    payloads = list(SWEEP_PAYLOADS[: (3 if tier == "quick" else len(SWEEP_PAYLOADS))])
+    extra_n = 1 if tier == "quick" else 40
+    payloads += [gen_value(rng, 0.7) for _ in range(extra_n)]
+    scratch = runner.make_scratch()
+    stats = {"sweep_records": 0, "sweep_runs": 0, "sweep_offsets_cut": 0, "sweep_reader_saw_cut": 0, "sweep_cut_inside_multibyte": 0}
+    try:
+        ctx = multiprocessing.get_context("fork")
+        with ProcessPoolExecutor(max_workers=min(16, os.cpu_count() or 1), mp_context=ctx, initializer=runner._worker_init, initargs=(PROP, scratch, True)) as ex:
+            lens = list(ex.map(_sweep_len, [(sweep_spec(p, None, "iter"), seed) for p in payloads]))
+            tasks = []
+            for p, L in zip(payloads, lens):
+                if L > 1500:
+                    continue
+                stats["sweep_records"] += 1
+                for mode in ("iter", "async") if tier != "quick" else ("iter",):
+                    for k in range(1, L):
+                        tasks.append((sweep_spec(p, k, mode), seed))
+            for res in ex.map(_sweep_task, tasks, chunksize=16):
+                stats["sweep_runs"] += 1
+                stats["sweep_offsets_cut"] += 1 if res["faults"].get("short_write") else 0
+                if res["probes"].get("reader_hit_eof_while_file_cut_inside_record") or res["probes"].get("receive_started_while_file_cut"):
+                    stats["sweep_reader_saw_cut"] += 1
+                stats["sweep_cut_inside_multibyte"] += 1 if res["probes"].get("cut_inside_multibyte") else 0
+                total["runs"] += 1
+                total["nontrivial"] += 1
+                total["digests"].add(res["digest"])
+                if res["violation"] is not None:
+                    b = runner.sig_base(res["violation"]["signature"])
+                    total["violation_counts"][b] += 1
+                    if total["violation_counts"][b] <= 5:
+                        total["violations"].append({"run": -2, "seed": res["seed"], "spec": res["spec"], "violation": res["violation"]})
+    finally:
+        import shutil
+
+        shutil.rmtree(scratch, ignore_errors=True)
+    stats["sweep_wall_s"] = round(time.time() - t0, 1)
+    return stats
 
 
 def spec_size(spec: dict) -> int:
